@@ -224,7 +224,7 @@ def Default.toJ : Default → J
   | .str s => .str s
   | .none => .null
 
-/-- the `type` (and `pattern`) the emitter writes for a type; second component: pushed to `required`.
+/-- the `type` (and `pattern`) the emitter writes for a type (when it does not raise, see `emitError`).
     `typ in typ2json_type` → table value, required; otherwise `Optional[` is stripped (inner looked up in the table),
     else required; a `Literal[` then becomes `pattern` + `typ2json_type["str"]` (`type(enum[0]).__name__`; a missing
     `"str"` row would be a KeyError in the code — here the raw name, which `emitted_valid` cannot accept). -/
@@ -233,8 +233,17 @@ def emitType (t : Typ) : Str × Option Str :=
   | .base b => (jsonTypeOf b.name, none)
   | .lit ms => (jsonTypeOf js!"str", some (patternOf ms))
 
-/-- `param2json_schema_property` : the property object (keys in a fixed order; key order inside a property is
-    not compared) and whether the name is appended to `required`. -/
+/-- `param2json_schema_property` raises on a `Literal` with fewer than two members:
+    `ast.parse("Literal[]")` is a SyntaxError, and for `Literal['a']` the subscript is a `Constant`, not a `Tuple`, so
+    `get_value(parsed_typ.slice).elts` is `'a'.elts` — AttributeError. -/
+def Typ.emitError (t : Typ) : Option Str :=
+  match t.core with
+  | .lit [] => some js!"SyntaxError"
+  | .lit [_] => some js!"AttributeError"
+  | _ => none
+
+/-- `param2json_schema_property` (when it returns): the property object (keys in a fixed order; key order inside a
+    property is not compared) and whether the name is appended to `required`. -/
 def emitProp (p : Param) : J × Bool :=
   let (ty, pat) := emitType p.typ
   let dflt : List (Str × J) := match p.default with
@@ -269,14 +278,27 @@ def idOf (name : Option Str) : Str :=
 def emitProps (ps : List (Str × Param)) : List (Str × J) := ps.map (fun np => (np.1, (emitProp np.2).1))
 def emitRequired (ps : List (Str × Param)) : List Str := (ps.filter (fun np => (emitProp np.2).2)).map (·.1)
 
-/-- `cdd.json_schema.emit.json_schema` -/
-def emit (ir : IR) : J :=
+/-- the first parameter (in order) on which `param2json_schema_property` raises -/
+def emitError : List (Str × Param) → Option Str
+  | [] => none
+  | np :: rest => match np.2.typ.emitError with
+    | some e => some e
+    | none => emitError rest
+
+/-- the dict `cdd.json_schema.emit.json_schema` returns when no parameter raises -/
+def emitT (ir : IR) : J :=
   .obj [(js!"$id", .str (idOf ir.name)),
         (js!"$schema", .str schemaUrl),
         (js!"description", .str (emitDesc ir.doc ir.returns)),
         (js!"type", .str js!"object"),
         (js!"properties", .obj (emitProps ir.params)),
         (js!"required", .arr ((emitRequired ir.params).map .str))]
+
+/-- `cdd.json_schema.emit.json_schema` -/
+def emit (ir : IR) : Except Str J :=
+  match emitError ir.params with
+  | some e => .error e
+  | none => .ok (emitT ir)
 
 /-! ## Parse -/
 
@@ -603,7 +625,7 @@ def typedDefault (t : Typ) (d : Default) : Bool :=
   | .int _ => t.core = .base .int || t.core = .base .float
   | .float r => t.core = .base .float && floatReprOk r
   | .bool _ => t.core = .base .bool
-  | .str s => (t.core = .base .str || (match t.core with | .lit ms => ms.contains s | _ => false)) && !noneTypeStrs.contains s
+  | .str s => t.core = .base .str || (match t.core with | .lit ms => ms.contains s | _ => false)
 
 def paramOk (p : Param) : Bool :=
   p.typ.ok && (match p.default with | some d => typedDefault p.typ d | none => true)
